@@ -7,3 +7,4 @@ import GM.Model.Blocks.Leaf
 import GM.Model.Blocks.List
 import GM.Model.Blocks.Html
 import GM.Model.Blocks.Driver
+import GM.Model.Blocks.QuoteSim
